@@ -70,7 +70,8 @@ def groups4 : Nat → List Nat → List Nat
 
 inductive Bad where
   | fault       -- read of unmapped memory (SIGSEGV)
-  | panic       -- debug-build arithmetic overflow
+  | panic       -- debug-build arithmetic overflow (the harness is built with overflow-checks)
+  | abort       -- debug-build `slice::from_raw_parts` precondition check (non-unwinding panic, SIGABRT)
   | fuel        -- model artefact
   deriving DecidableEq, Repr
 
@@ -80,38 +81,119 @@ structure IterOut where
   bad : Option Bad
   deriving DecidableEq, Repr
 
+abbrev U64 : Nat := 18446744073709551616            -- 2^64: `usize` arithmetic overflows at this value
+abbrev ISIZE_MAX : Nat := 9223372036854775807       -- 2^63 - 1
+
 /-- `cmsg_nxthdr!` with pointer VALUES (the repaired macros; = musl's CMSG_NXTHDR quoted in the source):
 `cmsg_len < 16 || __cmsg_len + 16 >= (msg_control + msg_controllen) - cmsg ? null : cmsg + __cmsg_len`;
-offsets are relative to `msg_control`.  `panic`: the subtraction underflows. -/
-def nxthdr (ctl off : Nat) (h : Hdr) : Except Bad (Option Nat) :=
+offsets are relative to `msg_control`, `base` is the numeric value of `msg_control`.  Every `usize` operation of the
+macro is checked in the debug build (`.panic`): `cmsg_len + 8`, `__cmsg_len + 16`, `msg_control + msg_controllen`,
+`… - cmsg`.  (`cmsg + __cmsg_len` cannot overflow once `__cmsg_len + 16 < end - cmsg` has been established.) -/
+def nxthdr (base ctl off : Nat) (h : Hdr) : Except Bad (Option Nat) :=
   if h.len < HDR then .ok none
+  else if U64 ≤ h.len + 8 then .error .panic
+  else if U64 ≤ cmsgAlign h.len + HDR then .error .panic
+  else if U64 ≤ base + ctl then .error .panic
   else if ctl < off then .error .panic
   else if cmsgAlign h.len + HDR ≥ ctl - off then .ok none
   else .ok (some (cmsgAlign h.len))
 
+/-- one call of `ControlMessageIterator::next` on the header `h` read at offset `off` (`m` = memory from `off` on),
+followed by the consumer reading the slice it was given.  `.error o`: the run ends here with `o` (crash);
+`.ok (item, reads, next)`: the item yielded (if the header is tagged SOL_SOCKET/SCM_RIGHTS), the reads made, and the
+distance to the next header (`none`: `cmsg_nxthdr!` returned null).  Order of the checks = order of evaluation in
+the source: `cmsg as usize + r.cmsg_len`, `- data as usize`, `cmsg_nxthdr!`, `from_raw_parts`. -/
+def hdrStep (base ctl off : Nat) (m : List Nat) (h : Hdr) :
+    Except IterOut (Option (List Nat) × List (Nat × Nat) × Option Nat) :=
+  if h.typ = SCM_RIGHTS ∧ h.level = SOL_SOCKET then
+    if U64 ≤ base + off + h.len then .error ⟨[], [(off, HDR)], some .panic⟩
+    else if h.len < HDR then .error ⟨[], [(off, HDR)], some .panic⟩
+    else
+      -- len = (cmsg + cmsg_len - data) / size_of::<Fd>()
+      let n := (h.len - HDR) / FD
+      match nxthdr base ctl off h with
+      | .error b => .error ⟨[], [(off, HDR)], some b⟩
+      | .ok nx =>
+        if ISIZE_MAX < FD * n then .error ⟨[], [(off, HDR)], some .abort⟩
+        else if (m.drop HDR).length < FD * n then .error ⟨[], [(off, HDR), (off + HDR, FD * n)], some .fault⟩
+        else .ok (some (groups4 n (m.drop HDR)), [(off, HDR), (off + HDR, FD * n)], nx)
+  else
+    match nxthdr base ctl off h with
+    | .error b => .error ⟨[], [(off, HDR)], some b⟩
+    | .ok nx => .ok (none, [(off, HDR)], nx)
+
 /-- `ControlMessageIterator::next` iterated to exhaustion; `m` is the memory from offset `off` on -/
-def iterFrom : Nat → Nat → Nat → List Nat → IterOut
-  | 0, _, _, _ => ⟨[], [], some .fuel⟩
-  | fuel + 1, ctl, off, m =>
+def iterFrom : Nat → Nat → Nat → Nat → List Nat → IterOut
+  | 0, _, _, _, _ => ⟨[], [], some .fuel⟩
+  | fuel + 1, base, ctl, off, m =>
     match decHdr m with
     | none => ⟨[], [(off, HDR)], some .fault⟩
     | some h =>
-      let rest : IterOut :=
-        match nxthdr ctl off h with
-        | .error b => ⟨[], [], some b⟩
-        | .ok none => ⟨[], [], none⟩
-        | .ok (some d) => iterFrom fuel ctl (off + d) (m.drop d)
-      if h.typ = SCM_RIGHTS ∧ h.level = SOL_SOCKET then
-        -- len = (cmsg + cmsg_len - data) / size_of::<Fd>()
-        if h.len < HDR then ⟨[], [(off, HDR)], some .panic⟩ else
-        let n := (h.len - HDR) / FD
-        if (m.drop HDR).length < FD * n then ⟨[], [(off, HDR), (off + HDR, FD * n)], some .fault⟩ else
-        ⟨groups4 n (m.drop HDR) :: rest.msgs, (off, HDR) :: (off + HDR, FD * n) :: rest.reads, rest.bad⟩
-      else ⟨rest.msgs, (off, HDR) :: rest.reads, rest.bad⟩
+      match hdrStep base ctl off m h with
+      | .error o => o
+      | .ok (item, rd, nx) =>
+        let rest : IterOut :=
+          match nx with
+          | none => ⟨[], [], none⟩
+          | some d => iterFrom fuel base ctl (off + d) (m.drop d)
+        ⟨item.toList ++ rest.msgs, rd ++ rest.reads, rest.bad⟩
 
 /-- `control_messages()` + the iterator: `cmsg_firsthdr!` = `msg_controllen >= 16 ? msg_control : null` -/
-def iterate (mem : List Nat) (ctl : Nat) : IterOut :=
-  if ctl < HDR then ⟨[], [], none⟩ else iterFrom (ctl + 1) ctl 0 mem
+def iterate (base : Nat) (mem : List Nat) (ctl : Nat) : IterOut :=
+  if ctl < HDR then ⟨[], [], none⟩ else iterFrom (ctl + 1) base ctl 0 mem
+
+/-- the address the driver assumes for `msg_control` (any user-space address gives the same answers on the inputs the
+check generates: header lengths are either < 2^64 - 2^48 or ≥ 2^64 - 2^16) -/
+abbrev NOMINAL_BASE : Nat := 70368744177664     -- 2^46
+
+/-! ## specification side: the kernel's view of a control buffer
+
+`CMSG_OK(mhdr, cmsg)` (include/linux/socket.h):
+  `cmsg_len >= sizeof(struct cmsghdr) && cmsg_len <= msg_controllen - ((char *)cmsg - (char *)msg_control)`.
+The walk is `for (cmsg = CMSG_FIRSTHDR; cmsg; cmsg = CMSG_NXTHDR) { if (!CMSG_OK) stop; … }` over the WHOLE memory
+with absolute offsets; `uNext` is the userland CMSG_NXTHDR (musl, quoted in the source: strictly more than a header
+must remain), `kNext` the kernel's `__cmsg_nxthdr` (a header must fit).  They differ only in whether a header
+occupying exactly the last 16 bytes is visited (`trailing_slot_*` theorems). -/
+
+def cmsgOk (ctl off : Nat) (h : Hdr) : Bool := decide (HDR ≤ h.len) && decide (h.len ≤ ctl - off)
+
+def isRights (h : Hdr) : Bool := decide (h.typ = SCM_RIGHTS) && decide (h.level = SOL_SOCKET)
+
+def uNext (ctl off : Nat) (h : Hdr) : Option Nat :=
+  if ctl ≤ off + cmsgAlign h.len + HDR then none else some (off + cmsgAlign h.len)
+
+def kNext (ctl off : Nat) (h : Hdr) : Option Nat :=
+  if ctl < off + cmsgAlign h.len + HDR then none else some (off + cmsgAlign h.len)
+
+inductive Stop where
+  | done                                  -- the walk ran off the end of the buffer
+  | malformed (off : Nat) (h : Hdr)       -- first header that is not CMSG_OK
+  | unmapped                              -- (header not readable: excluded by `ctl ≤ mem.length`)
+  | fuel
+  deriving DecidableEq, Repr
+
+/-- the well-formed prefix: the (offset, header) pairs visited while every header is CMSG_OK, and why it ends;
+`next` is the stepping macro -/
+def wfWalk (next : Nat → Nat → Hdr → Option Nat) : Nat → List Nat → Nat → Nat → List (Nat × Hdr) × Stop
+  | 0, _, _, _ => ([], .fuel)
+  | fuel + 1, mem, ctl, off =>
+    match decHdr (mem.drop off) with
+    | none => ([], .unmapped)
+    | some h =>
+      if cmsgOk ctl off h then
+        match next ctl off h with
+        | none => ([(off, h)], .done)
+        | some o => let r := wfWalk next fuel mem ctl o; ((off, h) :: r.1, r.2)
+      else ([], .malformed off h)
+
+def wfPrefix (next : Nat → Nat → Hdr → Option Nat) (mem : List Nat) (ctl : Nat) : List (Nat × Hdr) × Stop :=
+  if ctl < HDR then ([], .done) else wfWalk next (ctl + 1) mem ctl 0
+
+/-- the descriptor lists carried by the SCM_RIGHTS headers of a walk, in order -/
+def rightsOf (mem : List Nat) : List (Nat × Hdr) → List (List Nat)
+  | [] => []
+  | (off, h) :: t =>
+    if isRights h then groups4 ((h.len - HDR) / FD) (mem.drop (off + HDR)) :: rightsOf mem t else rightsOf mem t
 
 /-! ## the macros as they were before the repair
 
